@@ -281,13 +281,19 @@ class MuChannel:
         num_rx, num_tx = self._su_siso_channels.shape
 
         # Set in an attribute for easy retriaval later
-        self._pathloss_matrix = np.copy(pathloss_matrix)
+        if pathloss_matrix is None:
+            self._pathloss_matrix = None
+        else:
+            self._pathloss_matrix = np.copy(pathloss_matrix)
 
         for rx in range(num_rx):
             for tx in range(num_tx):
-                self._su_siso_channels[rx,
-                                       tx].set_pathloss(pathloss_matrix[rx,
-                                                                        tx])
+                if pathloss_matrix is None:
+                    # Disable the path loss in every link
+                    self._su_siso_channels[rx, tx].set_pathloss(None)
+                else:
+                    self._su_siso_channels[rx, tx].set_pathloss(
+                        pathloss_matrix[rx, tx])
 
     def corrupt_data(self, signal: np.ndarray) -> np.ndarray:
         """
